@@ -12,7 +12,7 @@ import vcommon, vbuild, scenarios
 from vcommon import Violation, Inconclusive, CaseInfo, Result, Scratch
 
 PROP = "C13"
-KINDS = ["gen_dir", "gen_file", "t2s", "s2t", "rd_cat", "rd_unpack"]
+KINDS = ["gen_dir", "gen_file", "t2s", "s2t", "rd_cat", "rd_unpack"] + scenarios.STDIO_KINDS
 FAULTS = [("write", errno.ENOSPC), ("write", errno.EIO), ("read", errno.EIO), ("open", errno.EIO), ("open", errno.ENOMEM),
           ("trunc", errno.ENOSPC), ("sync", errno.EIO), ("seek", errno.EIO)]
 
@@ -178,6 +178,25 @@ def check_case(case, opts):
                     delivered += 1 if d_ else 0
             if total:
                 classes.append("cls_" + cls)
+        # ---- standard output cannot take anything (ENOSPC on every write, whoever issues it - also stdio)
+        if kind in ("s2t", "rd_cat") + tuple(scenarios.STDIO_KINDS):
+            n[0] += 1
+            d = os.path.join(sc, "r%d" % n[0])
+            os.mkdir(d)
+            o = scenarios.run(ctx, d, variant="asan", timeout=40, stdout_path="/dev/full")
+            vcommon.shutil.rmtree(d, ignore_errors=True)
+            if ref.stdout_len:
+                what = "standard output on a full device"
+                if o.timeout:
+                    raise Violation("%s hangs with %s" % (kind, what), None, sig="hang")
+                if o.san:
+                    raise Violation("%s crashes with %s: %s" % (kind, what, o.san), o.err.decode(errors="replace")[-2000:], sig="crash")
+                if o.rc == 0:
+                    raise Violation("%s exits with status 0 although nothing it printed could be written (%s)" % (kind, what), None, sig="stdout-full-ignored")
+                if not o.err.strip():
+                    raise Violation("%s fails with %s without any diagnostic" % (kind, what), None, sig="no-diagnostic")
+                delivered += 1
+                classes.append("stdout_full")
         # ---- truncated input: the archive ends inside a member (inside an extension record or its padding, inside the
         # header, or before the last byte of the member's data).  Cuts at member boundaries and in the zero padding behind a
         # member's data lose nothing and are not judged.
